@@ -308,7 +308,11 @@ func (p PrefixExpression) PrettyPrint(out *PrintState) *PrintState {
 	if needParen {
 		out.Print("(")
 	}
-	out.Print(p.Literal())
+	lit := p.Literal()
+	if out.Compact && out.last != "" && lit != "" && (lit[0] == '-' || lit[0] == '+') && out.last[len(out.last)-1] == lit[0] {
+		out.Print(" ") // a- -b and a+ ++b must not become a--b and a+++b
+	}
+	out.Print(lit)
 	p.Right.PrettyPrint(out)
 	out.ExpressionPrecedence = oldPrecedence
 	if needParen {
